@@ -43,6 +43,11 @@ type c12Cfg struct {
 	// failure history when the explored faults arrive after the gap.
 	GapMs int    `json:"gap_ms,omitempty"`
 	Prime string `json:"prime,omitempty"`
+	// Overlap: a response of the same host, opened before the first logical request, is still open
+	// while that request meets its faults and is finished ("drain": read to the end, "close": closed
+	// unread) before the next logical request starts. The explored answers then include "the host
+	// asks for a pause and the caller gives up" (429ra-giveup): the pause must outlive both.
+	Overlap string `json:"overlap,omitempty"`
 }
 
 func (c c12Cfg) String() string {
@@ -50,7 +55,7 @@ func (c c12Cfg) String() string {
 	for _, m := range c.Mirrors {
 		ms = append(ms, fmt.Sprintf("%d:%s", m.Prio, m.State))
 	}
-	return fmt.Sprintf("limit=%d delay=%dms/%dms up=%d:%s mirrors=[%s] %s expect=%v ops=%d gap=%dms prime=%q", c.Limit, c.DelayMs, c.MaxMs, c.UpPrio, c.UpState, strings.Join(ms, ","), c.Method, c.Expect, c.Ops, c.GapMs, c.Prime)
+	return fmt.Sprintf("limit=%d delay=%dms/%dms up=%d:%s mirrors=[%s] %s expect=%v ops=%d gap=%dms prime=%q", c.Limit, c.DelayMs, c.MaxMs, c.UpPrio, c.UpState, strings.Join(ms, ","), c.Method, c.Expect, c.Ops, c.GapMs, c.Prime) + map[bool]string{true: " overlap=" + c.Overlap}[c.Overlap != ""]
 }
 
 var c12Body = []byte("0123456789")
@@ -68,7 +73,7 @@ func c12Transient(f string) bool {
 // answers after which the client must back off from the host
 func c12BackoffClass(f string) bool {
 	switch f {
-	case "500", "502", "503", "504", "408", "429", "429ra", "reset", "trunc1", "trunc9", "fails":
+	case "500", "502", "503", "504", "408", "429", "429ra", "429ra-giveup", "reset", "trunc1", "trunc9", "fails":
 		return true
 	}
 	return false
@@ -107,6 +112,10 @@ type c12RT struct {
 	const_ string // constant adversary: the same fault at every request
 	faults []string
 	primed bool
+	// overlap configurations: requests of the pre-opened response are not explored; giveUp cancels
+	// the context of the logical request in progress
+	quiet  bool
+	giveUp func()
 }
 
 func (rt *c12RT) state(host string) string {
@@ -140,15 +149,21 @@ func (rt *c12RT) RoundTrip(req *http.Request) (*http.Response, error) {
 		return r, nil
 	}
 	f := ""
-	if rt.cfg.Prime != "" && len(rt.log) == 0 {
+	if rt.quiet {
+		// the response that stays open: conforming answer, not part of the explored sequence
+	} else if rt.cfg.Prime != "" && len(rt.log) == 0 {
 		f = rt.cfg.Prime
 		rt.primed = true
 	} else if rt.const_ != "" {
 		f = rt.const_
 	} else {
-		ch := rt.c.Choose("net", 1+len(c12Faults), nil)
+		fl := c12Faults
+		if rt.cfg.Overlap != "" {
+			fl = append(append([]string{}, c12Faults...), "429ra-giveup")
+		}
+		ch := rt.c.Choose("net", 1+len(fl), nil)
 		if ch > 0 {
-			f = c12Faults[ch-1]
+			f = fl[ch-1]
 			rt.faults = append(rt.faults, f)
 		}
 	}
@@ -191,6 +206,11 @@ func (rt *c12RT) RoundTrip(req *http.Request) (*http.Response, error) {
 		c, _ := strconv.Atoi(f)
 		return mk(c, nil, []byte("{}"))
 	case "429ra":
+		return mk(429, http.Header{"Retry-After": {"2"}}, []byte("{}"))
+	case "429ra-giveup":
+		if rt.giveUp != nil {
+			rt.giveUp()
+		}
 		return mk(429, http.Header{"Retry-After": {"2"}}, []byte("{}"))
 	case "401":
 		return mk(401, http.Header{"Www-Authenticate": {`Basic realm="x"`}}, []byte("{}"))
@@ -244,21 +264,42 @@ func c12Run(t *testing.T, c *explore.Ctx, cfg c12Cfg, constant string) *c12Resul
 			WithRetryLimit(cfg.Limit),
 			WithDelay(time.Duration(cfg.DelayMs)*time.Millisecond, time.Duration(cfg.MaxMs)*time.Millisecond),
 		)
+		var held *Resp
+		if cfg.Overlap != "" {
+			rt.quiet, rt.op = true, -1
+			h, err := cl.Do(context.Background(), &Req{Host: "up.example", Method: "GET", Repository: "proj", Path: "blobs/held"})
+			rt.quiet = false
+			if err != nil {
+				res.errs = append(res.errs, fmt.Errorf("PANIC: harness: the held response could not be opened: %v", err))
+				return
+			}
+			held = h
+		}
 		for op := 0; op < cfg.Ops; op++ {
 			if op > 0 && cfg.GapMs > 0 {
 				time.Sleep(time.Duration(cfg.GapMs) * time.Millisecond)
+			}
+			if op == 1 && held != nil {
+				// the response opened first finishes now, successfully
+				if cfg.Overlap == "drain" {
+					io.Copy(io.Discard, held)
+				}
+				_ = held.Close()
 			}
 			rt.op = op
 			req := &Req{Host: "up.example", Method: cfg.Method, Repository: "proj", Path: "blobs/x"}
 			if cfg.Expect {
 				req.ExpectLen = int64(len(c12Body))
 			}
-			resp, err := cl.Do(context.Background(), req)
+			octx, ocancel := context.WithCancel(context.Background())
+			rt.giveUp = ocancel
+			resp, err := cl.Do(octx, req)
 			var body []byte
 			if err == nil {
 				body, err = io.ReadAll(resp)
 				_ = resp.Close()
 			}
+			ocancel()
 			res.errs = append(res.errs, err)
 			res.bodies = append(res.bodies, body)
 		}
@@ -321,7 +362,7 @@ func c12Judge(cfg c12Cfg, r *c12Result, constant string) (string, string) {
 			continue
 		}
 		want := delay
-		if e.Answer == "429ra" {
+		if e.Answer == "429ra" || e.Answer == "429ra-giveup" {
 			want = 2 * time.Second
 		}
 		for _, n := range r.log[i+1:] {
@@ -510,6 +551,13 @@ func c12Grid(thorough bool) []c12Item {
 					out = append(out, c12Item{c12Cfg{Limit: lim, DelayMs: d[0], MaxMs: d[1], UpState: "has", Method: "GET", Expect: true, Ops: 2, GapMs: gap, Prime: prime}, b})
 				}
 			}
+		}
+	}
+	// a response of the host is open while the next request meets its faults, and finishes before
+	// the request after that
+	for _, ov := range []string{"drain", "close"} {
+		for _, lim := range []int{1, 3} {
+			out = append(out, c12Item{c12Cfg{Limit: lim, DelayMs: 100, MaxMs: 30000, UpState: "has", Method: "GET", Expect: true, Ops: 2, Overlap: ov}, b})
 		}
 	}
 	// mirror sets
